@@ -498,6 +498,8 @@ void cstl_hash_clear(struct cstl_hash * const h, cstl_xtor_func_t * const clr)
     h->bucket.count = 0;
     h->bucket.capacity = 0;
 
+    /* the table is back in its initialized state: no hash function */
+    h->bucket.hash = NULL;
     h->bucket.rh.hash = NULL;
 
     h->count = 0;
